@@ -678,8 +678,9 @@ class Parser:
                 if ident == 'void':
                     return model.void_type, quals
                 if ident == '__dotdotdot__':
+                    # note: 'typenode.coord' is None in abstract declarators
                     raise FFIError(':%d: bad usage of "..."' %
-                            typenode.coord.line)
+                            type.coord.line)
                 tp0, quals0 = resolve_common_type(self, ident)
                 return tp0, (quals | quals0)
             #
